@@ -103,3 +103,54 @@ func vxH_C03_atomic() {
 	wg.Wait()
 	c.Close()
 }
+
+func init() { vxRegister("vxH_C03_blockedWriter", vxH_C03_blockedWriter) }
+
+// vxH_C03_blockedWriter: the top section is already full, so the writer
+// blocks on back-pressure; the merger then ingests, and a reader takes
+// snapshots around the writer's wake-up. A batch whose ExecuteBatch has
+// returned must be visible to every later Snapshot and Get (no stale cached
+// snapshot), explored over schedules.
+func vxH_C03_blockedWriter() {
+	ci, err := NewCollection(CollectionOptions{MaxPreMergerBatches: 1})
+	vxAssert("new-ok", err == nil)
+	c := ci.(*collection)
+	pre := &segment{}
+	pre.mutate(OperationSet, []byte{'p'}, []byte{'v'})
+	c.stackDirtyTop = &segmentStack{options: c.options, refs: 1, a: []Segment{pre}}
+	c.Start()
+	var mu sync.Mutex
+	done := false
+	var wg sync.WaitGroup
+	wg.Add(1)
+	go func() {
+		defer wg.Done()
+		b, _ := c.NewBatch(1, 8)
+		b.Set([]byte{'w'}, []byte{vxU8()})
+		vxAssert("executebatch-ok", c.ExecuteBatch(b, WriteOptions{}) == nil)
+		mu.Lock()
+		done = true
+		mu.Unlock()
+	}()
+	for s := 0; s < 3; s++ {
+		mu.Lock()
+		was := done
+		mu.Unlock()
+		snap, serr := c.Snapshot()
+		vxAssert("snapshot-ok", serr == nil)
+		v, _ := snap.Get([]byte{'w'}, ReadOptions{})
+		g, _ := c.Get([]byte{'w'}, ReadOptions{})
+		snap.Close()
+		if was {
+			vxAssert("returned-batch-is-visible-in-snapshot", v != nil)
+			vxAssert("returned-batch-is-visible-in-get", g != nil)
+		}
+		vxYield()
+	}
+	wg.Wait()
+	snap, _ := c.Snapshot()
+	v, _ := snap.Get([]byte{'w'}, ReadOptions{})
+	vxAssert("final-batch-visible", v != nil)
+	snap.Close()
+	c.Close()
+}
